@@ -88,7 +88,7 @@ def coq_stage(pid, tier):
             if b.startswith("Closed"):
                 res["axioms"][nme] = []
             else:
-                res["axioms"][nme] = sorted(set(re.findall(r"^([A-Za-z_][\w.']*)\s*:", b, re.M)))
+                res["axioms"][nme] = sorted(set(re.findall(r"^([A-Za-z_][\w.']*)\s*:", b, re.M)) - {"Axioms"})
     if len(blocks) != len(names):
         res["broken"] = "could not match Print Assumptions output (%d blocks, %d commands)" % (len(blocks), len(names))
         return res
